@@ -1183,6 +1183,23 @@ class Interp:
                 if isinstance(a1, Iter) and a1.v is a0.v and isinstance(a0.v, Vec):
                     return Vec([vcopy(x, elem or "") for x in a0.v.items[a0.i:a1.i]], elem)
             raise Unsupported("std::vector constructor form")
+        if cname.startswith("std::valarray<"):
+            elem = _first_targ(n.get("t", ""))
+            if not args:
+                return Vec([], elem)
+            if n.get("copy"):
+                return typed_copy(self.ev(args[0], env), n.get("t", "") or cname)
+            a0 = self.ev(args[0], env)
+            if len(args) == 1 and isinstance(a0, int) and not isinstance(a0, bool):
+                return Vec([Fraction(0) for _ in range(a0)], elem)
+            if len(args) == 2:
+                a1 = self.ev(args[1], env)
+                if isinstance(a0, Iter) and isinstance(a0.v, Vec) and isinstance(a1, int):
+                    # valarray(const T *p, size_t n): a copy of n elements
+                    if a0.i + a1 > len(a0.v.items):
+                        raise AssertFail("valarray built from %d elements of an array of %d" % (a1, len(a0.v.items) - a0.i))
+                    return Vec([vcopy(x, elem or "") for x in a0.v.items[a0.i:a0.i + a1]], elem)
+            raise Unsupported("std::valarray constructor form")
         if cname.startswith("std::set<") or cname.startswith("std::multiset<"):
             if not args:
                 return SetVal()
@@ -1522,6 +1539,17 @@ class Interp:
                 return len(recv.items)
             if meth == "empty":
                 return len(recv.items) == 0
+            if meth == "data" and not args:
+                return Iter(recv, 0)        # pointer to the first element
+            if meth == "assign" and len(args) == 2:
+                a0, a1 = self.ev(args[0], env), self.ev(args[1], env)
+                if isinstance(a0, int) and not isinstance(a0, bool):
+                    recv.items[:] = [copy.deepcopy(a1) for _ in range(a0)]
+                    return None
+                if isinstance(a0, Iter) and isinstance(a1, Iter) and a0.v is a1.v and isinstance(a0.v, Vec) and a0.v is not recv:
+                    recv.items[:] = [copy.deepcopy(x) for x in a0.v.items[a0.i:a1.i]]
+                    return None
+                raise Unsupported("vector::assign form")
             if meth == "insert" and len(args) == 1 and cname.startswith("std::set<"):
                 # an ordered set of pointers that the caller models as a sequence: insert = append unless present
                 v = self.ev(args[0], env)
